@@ -242,6 +242,9 @@ pub struct Sys {
     max_faults: usize,
     max_services: usize,
     pair_faults: bool,
+    /// drive the operations the way `antctl` does: every start / stop / remove / upgrade is preceded by the partial
+    /// registry refresh of `cmd/node.rs` (refresh_node_registry(.., full_refresh = false, is_local_network = false))
+    cmd_layer: bool,
 }
 
 static SEQ: AtomicU64 = AtomicU64::new(0);
@@ -257,13 +260,13 @@ fn registry_json(r: &NodeRegistry) -> serde_json::Value {
 }
 
 impl Sys {
-    fn new(max_faults: usize, pair_faults: bool) -> Sys {
+    fn new(max_faults: usize, pair_faults: bool, cmd_layer: bool) -> Sys {
         let dir = mc_core::scratch_root().join(format!("c19-{}", SEQ.fetch_add(1, Ordering::Relaxed)));
         std::fs::create_dir_all(&dir).unwrap();
         std::fs::write(dir.join("antnode"), b"#!/bin/sh\n").unwrap();
         std::fs::write(dir.join("antnode-new"), b"#!/bin/sh\n# new\n").unwrap();
         let reg = NodeRegistry::load(&dir.join("registry.json")).expect("empty registry");
-        Sys { os: SimOs::new(), reg, dir, rt: tokio::runtime::Builder::new_current_thread().enable_time().build().unwrap(), removed_once: vec![], left_behind: vec![], died_unseen: vec![], faults_used: 0, max_faults, max_services: 2, pair_faults }
+        Sys { os: SimOs::new(), reg, dir, rt: tokio::runtime::Builder::new_current_thread().enable_time().build().unwrap(), removed_once: vec![], left_behind: vec![], died_unseen: vec![], faults_used: 0, max_faults, max_services: 2, pair_faults, cmd_layer }
     }
 
     fn add_options(&self, count: u16, ports: Ports) -> AddNodeServiceOptions {
@@ -432,6 +435,51 @@ impl System for Sys {
     }
 
     fn step(&mut self, a: &Act, fails: &mut Vec<Fail>) {
+        let fails_before = fails.len();
+        self.step_inner(a, fails);
+        if self.cmd_layer {
+            // a violation seen through the command layer is its own finding: it is never absorbed by a known finding
+            // recorded for the ServiceManager API driven directly
+            for f in fails[fails_before..].iter_mut() {
+                f.trigger = format!("command-layer/{}", f.trigger);
+            }
+        }
+    }
+
+    fn canon(&self) -> Vec<u8> {
+        let g = self.os.0.lock().unwrap();
+        let nodes: Vec<String> = self
+            .reg
+            .nodes
+            .iter()
+            .map(|n| format!("{}|{:?}|pid={:?}|port={:?}|rpc={}|v={}|live={:?}|inst={}|dirs={}{}", n.service_name, n.status, n.pid, n.node_port, n.rpc_socket_addr.port(), n.version, g.processes.get(&n.antnode_path), g.installed.contains_key(&n.service_name), n.data_dir_path.exists() as u8, n.antnode_path.exists() as u8))
+            .collect();
+        format!("{nodes:?}|faults={}|removed={:?}|left={:?}|died={:?}|nextpid={}", self.faults_used, self.removed_once, self.left_behind, self.died_unseen, g.next_pid).into_bytes()
+    }
+}
+
+impl Sys {
+    fn step_inner(&mut self, a: &Act, fails: &mut Vec<Fail>) {
+        if self.cmd_layer && matches!(a.op, Op::Start { .. } | Op::Stop { .. } | Op::Remove { .. } | Op::Upgrade { .. }) {
+            // what cmd/node.rs does first in start / stop / remove / upgrade (no failures are injected into the refresh itself)
+            self.os.begin_op(&[]);
+            let os = self.os.clone();
+            let reg = &mut self.reg;
+            let r = self.rt.block_on(async { ant_node_manager::refresh_node_registry(reg, &os, false, false, false).await });
+            if let Err(e) = r {
+                fails.push(Fail::new("registry-refresh", "failed", format!("the registry refresh in front of {:?} failed: {e:?}", a.op)));
+            }
+            for i in 0..self.reg.nodes.len() {
+                let name = self.reg.nodes[i].service_name.clone();
+                let live = self.process_of(i);
+                if self.reg.nodes[i].status == ServiceStatus::Running && live.is_some() && live == self.reg.nodes[i].pid {
+                    self.left_behind.retain(|x| *x != name);
+                }
+                if live.is_none() && self.reg.nodes[i].status != ServiceStatus::Running {
+                    self.died_unseen.retain(|x| *x != name);
+                }
+            }
+        }
         self.os.begin_op(&a.faults);
         let before = registry_json(&self.reg);
         let statuses_before: Vec<ServiceStatus> = self.reg.nodes.iter().map(|n| n.status.clone()).collect();
@@ -505,7 +553,7 @@ impl System for Sys {
                     Op::Stop { .. } | Op::Remove { .. } if r.is_ok() => {
                         // a successful stop or removal leaves no process and no recorded PID
                         let trig = if a.faults.is_empty() { "plain".to_string() } else { format!("fault:{:?}", a.faults.iter().map(|f| f.1).collect::<Vec<_>>()) };
-                        if statuses_before[*i] != ServiceStatus::Added || matches!(a.op, Op::Remove { .. }) {
+                        if self.cmd_layer || statuses_before[*i] != ServiceStatus::Added || matches!(a.op, Op::Remove { .. }) {
                             if live.is_some() || n.pid.is_some() {
                                 let trig = if self.left_behind.contains(&name) { "process-left-behind-by-a-failed-start".to_string() } else { trig };
                                 fails.push(Fail::new("ok-stop-means-no-process", &trig, format!("{after_name} returned Ok but {name} has process {live:?} and recorded pid {:?}", n.pid)));
@@ -554,17 +602,6 @@ impl System for Sys {
         let trig = if a.faults.is_empty() { "plain".to_string() } else { format!("fault:{:?}", a.faults.iter().map(|f| f.1).collect::<Vec<_>>()) };
         self.invariants(&after_name, &trig, fails);
     }
-
-    fn canon(&self) -> Vec<u8> {
-        let g = self.os.0.lock().unwrap();
-        let nodes: Vec<String> = self
-            .reg
-            .nodes
-            .iter()
-            .map(|n| format!("{}|{:?}|pid={:?}|port={:?}|rpc={}|v={}|live={:?}|inst={}|dirs={}{}", n.service_name, n.status, n.pid, n.node_port, n.rpc_socket_addr.port(), n.version, g.processes.get(&n.antnode_path), g.installed.contains_key(&n.service_name), n.data_dir_path.exists() as u8, n.antnode_path.exists() as u8))
-            .collect();
-        format!("{nodes:?}|faults={}|removed={:?}|left={:?}|died={:?}|nextpid={}", self.faults_used, self.removed_once, self.left_behind, self.died_unseen, g.next_pid).into_bytes()
-    }
 }
 
 pub fn main(tier: Option<&str>) {
@@ -584,7 +621,14 @@ pub fn main(tier: Option<&str>) {
     bfs_replay(
         &run,
         BfsOpts { max_depth: depth, wall_cap: Some(Duration::from_secs(run.pick(45, 1500))), state_cap: None, label: format!("lifecycle/faults<={max_faults}") },
-        || Sys::new(max_faults, pairs),
+        || Sys::new(max_faults, pairs, false),
+    );
+    // the same search with every start / stop / remove / upgrade preceded by the partial registry refresh the antctl commands
+    // perform (cmd/node.rs): what the refresh records is what the operation then trusts
+    bfs_replay(
+        &run,
+        BfsOpts { max_depth: run.pick(4, 6), wall_cap: Some(Duration::from_secs(run.pick(45, 1500))), state_cap: None, label: format!("command-layer/faults<={max_faults}") },
+        || Sys::new(max_faults, pairs, true),
     );
     run.finish();
 }
